@@ -148,7 +148,10 @@ func (w *World) WireCheck(opt WireOptions) []WireFinding {
 					add("C05/keyupdate/v2-uses-v1-ku-label", "datagram #%d (%s): 1-RTT packet pn %d of key generation %d opens only with keys derived with the v1 label \"quic ku\" on a QUIC v2 connection (RFC 9369 3.3.2 requires \"quicv2 ku\")", rec.Seq, rec.Dir, p.PN, p.KeyGen)
 				}
 				k := pnKey{rec.Dir, space(p.Kind), p.PN}
-				if p.Kind != "1rtt" {
+				if p.Kind == "1rtt" {
+					// such a second connection attempt has its own 1-RTT keys and numbers its 0.5-RTT packets from 0 again
+					k.space += fmt.Sprintf("/conn%d", p.Conn)
+				} else {
 					// a late duplicate of the client's first Initial can make the server start a second connection
 					// attempt with the same Initial keys; long-header packets are told apart by their source connection ID
 					k.space += fmt.Sprintf("/%x", p.SCID)
